@@ -38,6 +38,8 @@ def tally(tf):
             else:
                 k = "call/transfer %s%s" % ("ok" if x["status"] == "1" else "failed", " (all gas used)" if x["used"] == x["gas"] else "")
             SEEN[k] = SEEN.get(k, 0) + 1
+            if x["k"] == "OLVM" and x.get("nested"):
+                SEEN["nested failing call, outer call pays"] = SEEN.get("nested failing call, outer call pays", 0) + 1
             if x["probed"] >= 0:
                 SEEN["balance read through the EVM"] = SEEN.get("balance read through the EVM", 0) + 1
             if x["k"] == "OLVM" and e.get("fork", 1) > 1 and e["h"] == e["fork"]:
@@ -53,11 +55,11 @@ def run(ctx, replay):
         if d["ok"] or "Invariant InvConserved is violated" not in d["text"]:
             raise vlib.ToolFailure("vacuity control failed: deviation keepGasOnFailure not caught by InvConserved")
     subsys.run(ctx, "C17", replay, "Olvm", MC, ["olvm", "olvmfork"], TRACE, corrupt,
-               "seeded histories on a genesis with the EVM enabled: three EVM accounts deploy seven hand-assembled programs (counter, forwarder, balance probe, reverting, looping, self-destructing, refund-earning toggle; also creation code that reverts), call them with and without value, move value between EVM accounts, native accounts, fresh addresses and contracts, natives pay EVM accounts and contracts; deviations delivered with and without the mempool check: sequence numbers too low and with gaps, unpayable value or gas, gas below the intrinsic cost, wrong chain id, another account's signature, wrong memo, higher gas prices; one evaluation = one block re-computed by TLC (who may execute, outcome per program, gas used times price to the fee pool, value to where the program sends it, sequence numbers, code set) and compared exactly with all balances, sequence numbers, coded addresses and the fee pool",
+               "seeded histories on a genesis with the EVM enabled: three EVM accounts deploy seven hand-assembled programs (counter, forwarder, balance probe, reverting, looping, self-destructing, refund-earning toggle, and a pair making a nested call that creates an account, touches others and fails while the outer call goes on and pays; also creation code that reverts), call them with and without value, move value between EVM accounts, native accounts, fresh addresses and contracts, natives pay EVM accounts and contracts; deviations delivered with and without the mempool check: sequence numbers too low and with gaps, unpayable value or gas, gas below the intrinsic cost, wrong chain id, another account's signature, wrong memo, higher gas prices; one evaluation = one block re-computed by TLC (who may execute, outcome per program, gas used times price to the fee pool, value to where the program sends it, sequence numbers, code set) and compared exactly with all balances, sequence numbers, coded addresses and the fee pool",
                n_blocks=(40, 16) if ctx.quick() else (500, 22), extra_mc=[] if ctx.quick() else [MCBIG], tally=tally)
     if not replay:
         need = ["native transfer", "creation ok", "creation failed", "call/transfer ok", "call/transfer failed", "call/transfer failed (all gas used)",
-                "balance read through the EVM", "gas price above 1", "executed in the fork block", "refused before the fork"]
+                "balance read through the EVM", "gas price above 1", "executed in the fork block", "refused before the fork", "nested failing call, outer call pays"]
         miss = [k for k in need if not SEEN.get(k)]
         if miss:
             raise vlib.ToolFailure("workload too poor: never observed: %s (seen %s)" % (miss, SEEN))
